@@ -86,8 +86,12 @@ func (t *TimerBasedElectionTrigger) Stop() {
 }
 
 func (t *TimerBasedElectionTrigger) CalcTimeout(view primitives.View) time.Duration {
-	timeoutMultiplier := time.Duration(int64(math.Pow(TIMEOUT_EXP_BASE, float64(view))))
-	return timeoutMultiplier * t.minTimeout
+	// base * 2^view, saturating at the largest representable duration instead of wrapping
+	timeout := math.Pow(TIMEOUT_EXP_BASE, float64(view)) * float64(t.minTimeout)
+	if math.IsNaN(timeout) || timeout >= float64(math.MaxInt64) {
+		return time.Duration(math.MaxInt64)
+	}
+	return time.Duration(timeout)
 }
 
 func triggerElections(electionChannel chan *interfaces.ElectionTrigger, height primitives.BlockHeight, view primitives.View, triggerCancelled chan struct{}, electionsFunc func()) {
